@@ -57,6 +57,15 @@ type Conn struct {
 	ExpiryFaults bool
 	wdeadline    time.Time
 	wexpired     time.Time
+	// With ExpiryFaults, a frame that starts under a write deadline which was
+	// not renewed since the previous frame started may find it expired (any
+	// amount of time can have passed in between): a fourth answer.
+	// StaleExpiry counts how often that answer was given.
+	StaleExpiry int
+	wdlGen      int    // SetWriteDeadline calls so far
+	wdlGenFrame int    // wdlGen when the current / last frame started
+	frames9p    int    // frames started so far
+	partial     []byte // bytes of the frame in progress
 }
 
 // timeoutErr is what a net.Conn returns when a deadline has passed.
@@ -127,12 +136,42 @@ func (c *Conn) Write(p []byte) (int, error) {
 	d.mu.Lock()
 	faulty := c.FaultyWrites
 	d.mu.Unlock()
+	d.mu.Lock()
+	frameStart := len(c.partial) == 0
+	stale := faulty && c.ExpiryFaults && frameStart && c.frames9p > 0 && !c.wdeadline.IsZero() && c.wdlGen == c.wdlGenFrame
+	if frameStart {
+		c.wdlGenFrame = c.wdlGen
+		c.frames9p++
+	}
+	c.partial = append(c.partial, p...)
+	for {
+		n, full := frameLen(c.partial)
+		if !full {
+			break
+		}
+		c.partial = c.partial[n:]
+	}
+	if len(c.partial) >= 4 {
+		if n := int(binary.LittleEndian.Uint32(c.partial)); n < 4 {
+			c.partial = nil // not 9P framing: no frame tracking
+		}
+	}
+	d.mu.Unlock()
 	if faulty {
 		n := 2
 		if c.ExpiryFaults {
 			n = 3
 		}
+		if stale {
+			n = 4
+		}
 		fail = vsched.Choose("conn.Write?"+c.Name, n, true)
+		if fail == 3 {
+			d.mu.Lock()
+			c.StaleExpiry++
+			d.mu.Unlock()
+			return 0, timeoutErr{}
+		}
 	} else {
 		vsched.Yield("conn.Write:"+c.Name, d.id())
 	}
@@ -281,7 +320,7 @@ func (c *Conn) condReadable() bool {
 }
 
 //go:norace
-func (c *Conn) condDrained() bool { return len(c.w.buf) == 0 || c.w.rclosed }
+func (c *Conn) condDrained() bool { return len(c.w.buf) == 0 || c.w.rclosed || c.closed } // closing one's own end unblocks one's writes, as on a net.Conn
 
 // FrameReadyNR is FrameReady for use inside scheduler-evaluated conditions.
 //
@@ -336,6 +375,7 @@ func (c *Conn) SetReadDeadline(t time.Time) error { return nil }
 func (c *Conn) SetWriteDeadline(t time.Time) error {
 	c.w.mu.Lock()
 	c.wdeadline = t
+	c.wdlGen++
 	c.w.mu.Unlock()
 	return nil
 }
